@@ -90,6 +90,17 @@ def gen_points(rng, n):
         for c in counts:
             if 0 <= c <= 2 ** 62:
                 pts.append((c, r))
+    # alias runs: an argument followed at once by the arguments that a narrowing conversion (to 32, 31, 24 or 16 bits, to
+    # float) would confuse with it - whatever state an implementation keeps between calls (a memo, a table) is then
+    # asked about the look-alike of what it saw last.  The functions accept any double; nothing here is out of range.
+    for _ in range(max(4, n // 20000)):
+        r0 = float(rng.choice([44100, 48000, 96000, 22050, 88200, 209, 210, 420, 0, 1, rng.randrange(0, 400000)]))
+        c0 = rng.choice([0, 1, 1000, 44100 * 200, rng.randrange(0, 10 ** 9)])
+        for step in (2.0 ** 32, 2.0 ** 33, 2.0 ** 31, 2.0 ** 24, 2.0 ** 16, 2.0 ** 32 * rng.randrange(2, 1000), 2.0 ** 48):
+            for c in (c0, c0 + 2 ** 32, c0 + 2 ** 31, c0 + 2 ** 53):
+                pts += [(c0, r0), (c, r0 + step), (c0, r0), (c, step - r0) if step > r0 else (c, r0)]
+        big = float(2 ** 24 + rng.randrange(1, 1000) * 2 + 1)     # not representable as a float
+        pts += [(c0, big - 1.0), (c0, big), (c0, big + 1.0)]
     # monotonicity runs: consecutive counts
     for _ in range(max(1, n // 4000)):
         r = rng.choice(rates) if rng.random() < 0.7 else rng.uniform(0, 400000)
